@@ -353,7 +353,8 @@ def worker_body(world, msg, ack: bool = True) -> Callable[[], None]:
         world.current[t] = (type(msg).__name__, msg.message_id)
         try:
             try:
-                world.processor._handle_message(msg)
+                # worker threads of one process may run QueueProcessor objects with different configurations
+                getattr(world, "processor_by_thread", {}).get(t, world.processor)._handle_message(msg)
                 if ack:
                     world.queue.ack(msg)
             except Exception as e:
